@@ -486,3 +486,143 @@ func execC07(t *testing.T, c C07Case) (v Verdict) {
 }
 
 func TestC07(t *testing.T) { checkProp(t, "C07", "main", genC07, execC07) }
+
+// ---- the context ends while the opening envelope is on its way out ----------------------------
+//
+// "... wherever in the stream's life the cancellation lands (right after opening, ...)": the earliest such point is
+// while the opening envelope is still inside the transport's Write. Some transports complete a write once they have
+// started it, whatever happens to the context; the server then has a stream whose caller is already gone. Its handler
+// must not be left running with a live context.
+
+type C07Open struct {
+	Kind     int  `json:"kind"`
+	Deadline bool `json:"deadline"` // the context ends by its deadline instead of an explicit cancel
+	Cause    bool `json:"cause"`
+	Stats    bool `json:"stats,omitempty"`
+	Ser      bool `json:"ser"`
+	By       int  `json:"by"` // other streams opened normally on the same connection at the same time
+}
+
+func genC07Open(t *rapid.T) C07Open {
+	return C07Open{Kind: rapid.SampledFrom(streamKinds).Draw(t, "kind"), Deadline: rapid.Bool().Draw(t, "deadline"), Cause: rapid.IntRange(0, 3).Draw(t, "cause") == 0,
+		Stats: rapid.IntRange(0, 2).Draw(t, "stats") == 0, Ser: rapid.Bool().Draw(t, "ser"), By: rapid.IntRange(0, 2).Draw(t, "by")}
+}
+
+func execC07Open(t *testing.T, c C07Open) (v Verdict) {
+	var mu sync.Mutex
+	var hctx context.Context
+	hstarted := false
+	var callErr error
+	callDone := false
+	byOK := 0
+	res := kit.Bubble(t, func() {
+		svc := kit.NewSvc()
+		svc.Stream("t", true, true, func(s grpcServerStream) error {
+			mu.Lock()
+			hctx, hstarted = s.Context(), true
+			mu.Unlock()
+			<-s.Context().Done()
+			return status.FromContextError(s.Context().Err()).Err()
+		})
+		svc.Stream("pp", true, true, func(s grpcServerStream) error {
+			for {
+				b, err := kit.RecvBytes(s)
+				if err != nil {
+					return nil
+				}
+				if err := kit.SendBytes(s, b); err != nil {
+					return err
+				}
+			}
+		})
+		w := kit.NewWorld(kit.Topo{Kind: "direct", Serialize: c.Ser, Clients: 1, Stats: c.Stats}, svc, nil, nil)
+		l := w.Links[0]
+		l.A.IgnoreWriteCtx = true // once started, a write completes
+		l.A.Hold(func(r *kit.Rpc) bool {
+			return r.GetHeader().GetMethod() == kit.FullMethod("t") && r.GetBody() == nil && r.GetTrailer() == nil && r.GetReset_() == nil
+		})
+		ctx, cancel := context.WithCancel(context.Background())
+		why := errors.New("lost interest")
+		switch {
+		case c.Deadline && c.Cause:
+			ctx, cancel = context.WithTimeoutCause(context.Background(), 30*time.Millisecond, why)
+		case c.Deadline:
+			ctx, cancel = context.WithTimeout(context.Background(), 30*time.Millisecond)
+		case c.Cause:
+			var cc context.CancelCauseFunc
+			ctx, cc = context.WithCancelCause(context.Background())
+			cancel = func() { cc(why) }
+		}
+		defer cancel()
+		go func() {
+			cs, err := w.Conn(0).NewStream(ctx, kit.StreamDescFor(c.Kind), kit.FullMethod("t"))
+			if err == nil {
+				_, err = kit.RecvBytes(cs)
+			}
+			mu.Lock()
+			callErr, callDone = err, true
+			mu.Unlock()
+		}()
+		var wg sync.WaitGroup
+		for i := 0; i < c.By; i++ {
+			wg.Add(1)
+			go func() {
+				defer wg.Done()
+				bctx, bcancel := context.WithTimeout(context.Background(), time.Hour)
+				defer bcancel()
+				bs, err := w.Conn(0).NewStream(bctx, kit.StreamDescFor(kit.KindBidi), kit.FullMethod("pp"))
+				if err != nil {
+					return
+				}
+				_ = kit.SendBytes(bs, []byte("x"))
+				if b, err := kit.RecvBytes(bs); err == nil && string(b) == "x" {
+					mu.Lock()
+					byOK++
+					mu.Unlock()
+				}
+				_ = bs.CloseSend()
+				_, _ = kit.RecvBytes(bs)
+			}()
+		}
+		kit.Settle() // the opening envelope of the target call is inside the transport's Write
+		if c.Deadline {
+			time.Sleep(40 * time.Millisecond)
+		} else {
+			cancel()
+		}
+		kit.Settle()
+		l.A.Hold(nil)
+		for _, h := range l.Held() {
+			h.Release() // the write completes: the open reaches the server
+		}
+		kit.Settle()
+		wg.Wait()
+		kit.Settle()
+		mu.Lock()
+		if hstarted && hctx.Err() == nil {
+			v.failf("the opening envelope reached the server after its caller's context had ended; the handler is running with a live context and nothing will ever cancel it")
+		}
+		mu.Unlock()
+		w.Shutdown()
+		kit.Settle()
+	})
+	if res.Panic != nil {
+		v.failf("panic: %v\n%s", res.Panic, res.Stack)
+	}
+	mu.Lock()
+	defer mu.Unlock()
+	if !callDone {
+		v.failf("the call whose context ended during the opening write never returned")
+	} else if callErr == nil {
+		v.failf("the call whose context ended during the opening write reported success")
+	} else if !isCtxFlavoured(kit.Observe(callErr), c.Deadline) {
+		v.failf("the call whose context ended during the opening write returned %v, want the context's status", callErr)
+	}
+	if byOK != c.By {
+		v.failf("%d of %d other streams on the connection completed", byOK, c.By)
+	}
+	v.Info = kit.CaseInfo{Labels: []string{"cancel-during-open", fmt.Sprintf("open.handler_started=%v", hstarted), "kind=" + kit.KindNames[c.Kind]}, NonTrivial: true, Key: fmt.Sprintf("%+v", c), Sample: c}
+	return
+}
+
+func TestC07Open(t *testing.T) { checkProp(t, "C07", "during-open", genC07Open, execC07Open) }
